@@ -39,7 +39,7 @@ pub fn eval_int(expression: Pairs<Rule>) -> i64 {
                     (W(lhs) / W(rhs)).0
                 }
             }
-            Rule::power => lhs.pow(rhs as u32),
+            Rule::power => lhs.wrapping_pow(rhs as u32),
             _ => unreachable!(),
         })
         .parse(expression)
